@@ -415,4 +415,31 @@ def replay(ctx, obj):
             print('   raises', r.get('error'), r.get('error_text'))
     if 'values' in rp:
         print('recorded:', rp['values'])
+    if 'case' in rp:
+        c = rp['case']
+        print('element', c['element'], 'observed', c['impl'], '| required by the construction (float evaluation, for the reader):',
+              py_construction(c))
     return 0
+
+
+def py_construction(c):
+    """the documented construction in plain floats (replay output only; never used to judge)"""
+    table = dict(LEN_UNITS + WL_UNITS + G_UNITS)
+    def mult(u):
+        return table[u]
+    b1 = [x * mult(c['b1_unit']) for x in c['b1']]
+    b2 = [x * mult(c['b2_unit']) for x in c['b2']]
+    g = [x * mult(c['g_unit']) for x in c['g']]
+    lam = c['wavelength'] * mult(c['wavelength_unit'])
+    h, mn = 6.62607015e-34, 1.67492750056e-27
+    dot = lambda a, b: sum(x * y for x, y in zip(a, b))
+    nrm = lambda a: math.sqrt(dot(a, a))
+    cross = lambda a, b: [a[1] * b[2] - a[2] * b[1], a[2] * b[0] - a[0] * b[2], a[0] * b[1] - a[1] * b[0]]
+    ey = [-x / nrm(g) for x in g]
+    z = [a - dot(b1, ey) * e for a, e in zip(b1, ey)]
+    ez = [x / nrm(z) for x in z]
+    ex = cross(ey, ez)
+    d = nrm(g) * mn ** 2 * lam ** 2 * dot(b2, b2) / (2 * h ** 2)
+    cc = [a + d * e for a, e in zip(b2, ey)]
+    return {'delta_m': d, 'two_theta': math.atan2(nrm(cross(b1, cc)), dot(b1, cc)), 'phi': math.atan2(dot(cc, ey), dot(cc, ex)),
+            'gamma_yz': math.atan2(abs(dot(b2, ey) + d), dot(b2, ez))}
